@@ -699,6 +699,9 @@ def _flat(d):
     return canon_json(d)
 
 
+trace_spy = [None]   # the friction-iteration spy of the run in progress
+
+
 def execute(trace):
     res = RunResult()
     prop = trace["prop"]
@@ -708,6 +711,9 @@ def execute(trace):
     fs = seams.SimFS()
     fs.install()
     seams.restore_defaults()
+    spy = seams.ColebrookSpy()
+    spy.install()
+    trace_spy[0] = spy
     numba_flag = seams.SETUP_MOD.numba_installed
     if trace.get("knobs", {}).get("numba_unavailable"):
         seams.SETUP_MOD.numba_installed = False
@@ -716,6 +722,7 @@ def execute(trace):
         _execute(trace, res, prop, program, meta, ops, solver, fs)
     finally:
         seams.SETUP_MOD.numba_installed = numba_flag
+        spy.uninstall()
         solver.uninstall()
         fs.uninstall()
         leaked = seams.defaults_diff()
@@ -876,7 +883,19 @@ def _execute(trace, res, prop, program, meta, ops, solver, fs):
 
         before = snap.snapshot(live.net)
         kw_before = copy.deepcopy(kw)
+        if trace_spy[0] is not None:
+            del trace_spy[0].calls[:]
         outcome, exc = _run_pipeflow(live.net, kw, solver, faults, sol_vec=sol)
+        # ---- C14, observable effect: the friction iteration runs with the resolved limits ---------------------
+        if trace_spy[0] is not None and trace_spy[0].calls:
+            used = sorted({(mi, tl) for (mi, tl) in trace_spy[0].calls}, key=str)
+            want = (opts_model.get("max_iter_colebrook"), opts_model.get("tolerance_colebrook"))
+            for (mi, tl) in used:
+                if mi != want[0]:
+                    res.violate("C14", "C14/in-force-differs:max_iter_colebrook@pipeflow", "used %r, resolved %r" % (mi, want[0]), oi)
+                if tl is not None and tl != want[1]:
+                    res.violate("C14", "C14/in-force-differs:tolerance_colebrook@pipeflow", "used %r, resolved %r" % (tl, want[1]), oi)
+            res.count("probe:colebrook-arguments-observed")
         records, fired = solver.records, solver.fired
         res.calcs += 1
         res.count("calc:%s:%s" % (mode, outcome.split(":")[0]))
